@@ -120,4 +120,270 @@ theorem runGets_spec (C : Compression) (sf : StoreFile) (hk : KeyDeterminesBlock
     simp only [runGets, List.map_cons]
     rw [← h1, ih _ h2]
 
+/-! ### the same for any set of admissible checkpoints (seek results, iteration, …) -/
+
+/-- among the admissible checkpoints the start offset determines the checkpoint -/
+def KeyDetOn (Adm : Checkpoint → Prop) : Prop :=
+  ∀ cp cp', Adm cp → Adm cp' → cp.byteStart = cp'.byteStart → cp = cp'
+
+def GoodEntryOn (Adm : Checkpoint → Prop) (C : Compression) (sf : StoreFile) (e : Nat × Bytes) : Prop :=
+  ∃ cp, Adm cp ∧ cp.byteStart = e.1 ∧ readBlockRaw C sf cp = some e.2
+
+def CacheInvOn (Adm : Checkpoint → Prop) (C : Compression) (sf : StoreFile) (c : BlockCache) : Prop :=
+  ∀ e ∈ c.entries, GoodEntryOn Adm C sf e
+
+theorem cacheInvOn_new (Adm : Checkpoint → Prop) (C : Compression) (sf : StoreFile) (cap : Nat) :
+    CacheInvOn Adm C sf (BlockCache.new cap) := by
+  intro e he; simp [BlockCache.new] at he
+
+theorem cache_get_specOn (Adm : Checkpoint → Prop) (C : Compression) (sf : StoreFile) (c : BlockCache)
+    (key : Nat) (h : CacheInvOn Adm C sf c) :
+    CacheInvOn Adm C sf (c.get key).2 ∧ ∀ b, (c.get key).1 = some b → GoodEntryOn Adm C sf (key, b) := by
+  unfold BlockCache.get
+  by_cases h0 : c.cap = 0
+  · simp only [h0, if_true]
+    exact ⟨h, by intro b hb; cases hb⟩
+  · simp only [h0, if_false]
+    cases hf : c.entries.find? (fun e => decide (e.1 = key)) with
+    | none => exact ⟨h, by intro b hb; cases hb⟩
+    | some e =>
+      have hmem : e ∈ c.entries := List.mem_of_find?_eq_some hf
+      have hk : e.1 = key := by simpa using List.find?_some hf
+      refine ⟨?_, ?_⟩
+      · intro x hx
+        simp only [List.mem_cons, List.mem_filter] at hx
+        rcases hx with rfl | ⟨hx, _⟩
+        · exact h _ hmem
+        · exact h _ hx
+      · intro b hb
+        simp only [Option.some.injEq] at hb
+        obtain ⟨cp, h1, h2, h3⟩ := h _ hmem
+        exact ⟨cp, h1, by simpa [hk] using h2, by simpa [hb] using h3⟩
+
+theorem cache_put_specOn (Adm : Checkpoint → Prop) (C : Compression) (sf : StoreFile) (c : BlockCache)
+    (key : Nat) (b : Bytes) (h : CacheInvOn Adm C sf c) (hg : GoodEntryOn Adm C sf (key, b)) :
+    CacheInvOn Adm C sf (c.put key b) := by
+  unfold BlockCache.put
+  by_cases h0 : c.cap = 0
+  · simpa [h0] using h
+  · simp only [h0, if_false]
+    split
+    · intro x hx
+      simp only [List.mem_cons, List.mem_filter] at hx
+      rcases hx with rfl | ⟨hx, _⟩
+      · exact hg
+      · exact h _ hx
+    · split
+      · intro x hx
+        simp only [List.mem_cons] at hx
+        rcases hx with rfl | hx
+        · exact hg
+        · exact h _ (List.dropLast_subset _ hx)
+      · intro x hx
+        simp only [List.mem_cons] at hx
+        rcases hx with rfl | hx
+        · exact hg
+        · exact h _ hx
+
+theorem readBlock_specOn (Adm : Checkpoint → Prop) (hk : KeyDetOn Adm) (C : Compression) (sf : StoreFile)
+    (c : BlockCache) (h : CacheInvOn Adm C sf c) (cp : Checkpoint) (ha : Adm cp) :
+    (readBlock C sf c cp).1 = readBlockRaw C sf cp ∧ CacheInvOn Adm C sf (readBlock C sf c cp).2 := by
+  unfold readBlock
+  have hg := cache_get_specOn Adm C sf c cp.byteStart h
+  rcases hget : c.get cp.byteStart with ⟨ob, c'⟩
+  rw [hget] at hg
+  cases ob with
+  | some b =>
+    obtain ⟨hinv, hb⟩ := hg
+    obtain ⟨cp', h1, h2, h3⟩ := hb b rfl
+    have : cp' = cp := hk cp' cp h1 ha h2
+    subst this
+    exact ⟨h3.symm, hinv⟩
+  | none =>
+    obtain ⟨hinv, _⟩ := hg
+    cases hr : readBlockRaw C sf cp with
+    | none => exact ⟨rfl, hinv⟩
+    | some b => exact ⟨rfl, cache_put_specOn Adm C sf c' cp.byteStart b hinv ⟨cp, ha, rfl, hr⟩⟩
+
+theorem readBlockOpt_specOn (Adm : Checkpoint → Prop) (hk : KeyDetOn Adm) (C : Compression) (sf : StoreFile)
+    (c : BlockCache) (h : CacheInvOn Adm C sf c) (ocp : Option Checkpoint) (ha : ∀ cp, ocp = some cp → Adm cp) :
+    (readBlockOpt C sf c ocp).1 = ocp.map (readBlockRaw C sf) ∧ CacheInvOn Adm C sf (readBlockOpt C sf c ocp).2 := by
+  cases ocp with
+  | none => exact ⟨rfl, h⟩
+  | some cp =>
+    obtain ⟨h1, h2⟩ := readBlock_specOn Adm hk C sf c h cp (ha cp rfl)
+    simp only [readBlockOpt, Option.map_some]
+    exact ⟨by rw [h1], h2⟩
+
+/-- the cached loop of `iter_raw` yields what the uncached loop yields and keeps the cache sound -/
+theorem iterLoopCached_spec (Adm : Checkpoint → Prop) (hk : KeyDetOn Adm) (C : Compression) (sf : StoreFile)
+    (alive : Nat → Bool) : ∀ (n doc : Nat) (cur : Option Checkpoint) (rest : List Checkpoint)
+    (block : Option (Option Bytes)) (pos : Nat) (c : BlockCache), CacheInvOn Adm C sf c →
+    (∀ cp ∈ rest, Adm cp) →
+    (iterLoopCached C sf alive n doc cur rest block pos c).1 = iterLoop C sf alive n doc cur rest block pos ∧
+      CacheInvOn Adm C sf (iterLoopCached C sf alive n doc cur rest block pos c).2 := by
+  intro n
+  induction n with
+  | zero => intro doc cur rest block pos c h _; exact ⟨rfl, h⟩
+  | succ n ih =>
+    intro doc cur rest block pos c h hrest
+    cases cur with
+    | none => exact ⟨rfl, h⟩
+    | some cc =>
+      simp only [iterLoopCached, iterLoop]
+      by_cases hm : decide (doc ≥ cc.docEnd) = true
+      · simp only [hm, if_true]
+        obtain ⟨h1, h2⟩ := readBlockOpt_specOn Adm hk C sf c h rest.head? (by
+          intro cp hcp
+          exact hrest cp (List.mem_of_mem_head? hcp))
+        rw [h1]
+        obtain ⟨i1, i2⟩ := ih (doc + 1) rest.head? rest.tail (rest.head?.map (readBlockRaw C sf)) (0 + 1)
+          (readBlockOpt C sf c rest.head?).2 h2 (fun cp hcp => hrest cp (List.mem_of_mem_tail hcp))
+        exact ⟨by rw [i1], i2⟩
+      · have hm' : decide (doc ≥ cc.docEnd) = false := by simpa using hm
+        simp only [hm', Bool.false_eq_true, if_false]
+        obtain ⟨i1, i2⟩ := ih (doc + 1) (some cc) rest block (pos + 1) c h hrest
+        exact ⟨by rw [i1], i2⟩
+
+theorem iterRawCached_spec (Adm : Checkpoint → Prop) (hk : KeyDetOn Adm) (C : Compression) (sf : StoreFile)
+    (hadm : ∀ cp ∈ checkpointsOf sf.index, Adm cp) (alive : Nat → Bool) (c : BlockCache)
+    (h : CacheInvOn Adm C sf c) :
+    (iterRawCached C sf alive c).1 = iterRaw C sf alive ∧ CacheInvOn Adm C sf (iterRawCached C sf alive c).2 := by
+  unfold iterRawCached iterRaw
+  simp only
+  obtain ⟨h1, h2⟩ := readBlockOpt_specOn Adm hk C sf c h (checkpointsOf sf.index).head? (by
+    intro cp hcp; exact hadm cp (List.mem_of_mem_head? hcp))
+  rw [h1]
+  exact iterLoopCached_spec Adm hk C sf alive _ 0 (checkpointsOf sf.index).head?
+    (checkpointsOf sf.index).tail ((checkpointsOf sf.index).head?.map (readBlockRaw C sf)) 0
+    (readBlockOpt C sf c (checkpointsOf sf.index).head?).2 h2
+    (fun cp hcp => hadm cp (List.mem_of_mem_tail hcp))
+
+/-- `get_document_bytes` through the cache, for any admissible set containing what `seek` returns -/
+theorem getBytesCached_specOn (Adm : Checkpoint → Prop) (hk : KeyDetOn Adm) (C : Compression) (sf : StoreFile)
+    (hseek : ∀ d cp, seek sf.index d = some cp → Adm cp) (c : BlockCache) (h : CacheInvOn Adm C sf c) (d : Nat) :
+    (getBytesCached C sf c d).1 = getBytes C sf d ∧ CacheInvOn Adm C sf (getBytesCached C sf c d).2 := by
+  unfold getBytesCached getBytes
+  cases hs : seek sf.index d with
+  | none => exact ⟨rfl, h⟩
+  | some cp =>
+    obtain ⟨h1, h2⟩ := readBlock_specOn Adm hk C sf c h cp (hseek d cp hs)
+    simp only [Option.bind_some]
+    generalize readBlock C sf c cp = rb at h1 h2 ⊢
+    obtain ⟨ob, c'⟩ := rb
+    simp only at h1 h2
+    subst h1
+    cases hr : readBlockRaw C sf cp with
+    | none => exact ⟨rfl, h2⟩
+    | some b => exact ⟨rfl, h2⟩
+
+/-! ### the LRU never holds more blocks than its capacity, nor one block twice -/
+
+def CacheSized (c : BlockCache) : Prop :=
+  c.entries.length ≤ c.cap ∧ (c.entries.map (·.1)).Nodup
+
+theorem cacheSized_new (cap : Nat) : CacheSized (BlockCache.new cap) := by
+  simp [CacheSized, BlockCache.new]
+
+theorem filter_keys_nodup (l : List (Nat × Bytes)) (key : Nat) (h : (l.map (·.1)).Nodup) :
+    ((l.filter fun x => x.1 ≠ key).map (·.1)).Nodup ∧ key ∉ (l.filter fun x => x.1 ≠ key).map (·.1) := by
+  constructor
+  · exact (List.Sublist.map _ List.filter_sublist).nodup h
+  · intro hm
+    obtain ⟨x, hx, hk⟩ := List.mem_map.mp hm
+    have := (List.mem_filter.mp hx).2
+    simp at this
+    exact this hk
+
+theorem cache_get_sized (c : BlockCache) (key : Nat) (h : CacheSized c) :
+    CacheSized (c.get key).2 ∧ (c.get key).2.cap = c.cap := by
+  unfold BlockCache.get
+  by_cases h0 : c.cap = 0
+  · simp only [h0, if_true]; exact ⟨by simpa [CacheSized, h0] using h, by simp [h0]⟩
+  · simp only [h0, if_false]
+    cases hf : c.entries.find? (fun e => decide (e.1 = key)) with
+    | none => exact ⟨h, rfl⟩
+    | some e =>
+      have hmem : e ∈ c.entries := List.mem_of_find?_eq_some hf
+      have hk : e.1 = key := by simpa using List.find?_some hf
+      obtain ⟨hlen, hnd⟩ := h
+      obtain ⟨f1, f2⟩ := filter_keys_nodup c.entries key hnd
+      refine ⟨⟨?_, ?_⟩, rfl⟩
+      · -- the promoted entry was in the list: the filtered list is strictly shorter
+        have hlt : (c.entries.filter fun x => x.1 ≠ key).length < c.entries.length := by
+          apply List.length_filter_lt_length_iff_exists.mpr
+          exact ⟨e, hmem, by simp [hk]⟩
+        simp only [List.length_cons]; omega
+      · simp only [List.map_cons, List.nodup_cons]
+        exact ⟨by rw [hk]; exact f2, f1⟩
+
+theorem cache_put_sized (c : BlockCache) (key : Nat) (b : Bytes) (h : CacheSized c) :
+    CacheSized (c.put key b) ∧ (c.put key b).cap = c.cap := by
+  obtain ⟨hlen, hnd⟩ := h
+  unfold BlockCache.put
+  by_cases h0 : c.cap = 0
+  · simp only [h0, if_true]; exact ⟨⟨by omega, hnd⟩, by simp [h0]⟩
+  · simp only [h0, if_false]
+    obtain ⟨f1, f2⟩ := filter_keys_nodup c.entries key hnd
+    split
+    · rename_i hany
+      refine ⟨⟨?_, ?_⟩, rfl⟩
+      · obtain ⟨e, hmem, hk⟩ := List.any_eq_true.mp hany
+        have hlt : (c.entries.filter fun x => x.1 ≠ key).length < c.entries.length := by
+          apply List.length_filter_lt_length_iff_exists.mpr
+          exact ⟨e, hmem, by simpa using hk⟩
+        simp only [List.length_cons]; omega
+      · simp only [List.map_cons, List.nodup_cons]; exact ⟨f2, f1⟩
+    · rename_i hany
+      have hnot : key ∉ c.entries.map (·.1) := by
+        intro hm
+        obtain ⟨x, hx, hk⟩ := List.mem_map.mp hm
+        exact hany (List.any_eq_true.mpr ⟨x, hx, by simpa using hk⟩)
+      split
+      · refine ⟨⟨?_, ?_⟩, rfl⟩
+        · simp only [List.length_cons, List.length_dropLast]; omega
+        · simp only [List.map_cons, List.nodup_cons]
+          refine ⟨?_, (List.Sublist.map _ (List.dropLast_sublist _)).nodup hnd⟩
+          intro hm
+          obtain ⟨x, hx, hk⟩ := List.mem_map.mp hm
+          exact hnot (List.mem_map.mpr ⟨x, List.dropLast_subset _ hx, hk⟩)
+      · refine ⟨⟨?_, ?_⟩, rfl⟩
+        · simp only [List.length_cons]; omega
+        · simp only [List.map_cons, List.nodup_cons]; exact ⟨hnot, hnd⟩
+
+theorem readBlock_sized (C : Compression) (sf : StoreFile) (c : BlockCache) (cp : Checkpoint) (h : CacheSized c) :
+    CacheSized (readBlock C sf c cp).2 ∧ (readBlock C sf c cp).2.cap = c.cap := by
+  unfold readBlock
+  obtain ⟨g1, g2⟩ := cache_get_sized c cp.byteStart h
+  rcases hget : c.get cp.byteStart with ⟨ob, c'⟩
+  rw [hget] at g1 g2
+  cases ob with
+  | some b => exact ⟨g1, g2⟩
+  | none =>
+    cases hr : readBlockRaw C sf cp with
+    | none => exact ⟨g1, g2⟩
+    | some b =>
+      obtain ⟨p1, p2⟩ := cache_put_sized c' cp.byteStart b g1
+      exact ⟨p1, by rw [p2]; exact g2⟩
+
+theorem runGets_sized (C : Compression) (sf : StoreFile) (ds : List Nat) : ∀ (c : BlockCache), CacheSized c →
+    CacheSized (runGets C sf c ds).2 ∧ (runGets C sf c ds).2.cap = c.cap := by
+  induction ds with
+  | nil => intro c h; exact ⟨h, rfl⟩
+  | cons d ds ih =>
+    intro c h
+    simp only [runGets]
+    have step : CacheSized (getBytesCached C sf c d).2 ∧ (getBytesCached C sf c d).2.cap = c.cap := by
+      unfold getBytesCached
+      cases hs : seek sf.index d with
+      | none => exact ⟨h, rfl⟩
+      | some cp =>
+        obtain ⟨r1, r2⟩ := readBlock_sized C sf c cp h
+        simp only
+        generalize readBlock C sf c cp = rb at r1 r2 ⊢
+        obtain ⟨ob, c'⟩ := rb
+        cases ob <;> exact ⟨r1, r2⟩
+    obtain ⟨i1, i2⟩ := ih _ step.1
+    exact ⟨i1, by rw [i2]; exact step.2⟩
+
 end TantivyModel.Store
